@@ -311,15 +311,11 @@ def m6_block_transactions_reply_guards(S):
                     S.witness(ctx, ob, f"{tag}_reach_accept", allp, acc)
 
 
-def m7_reconstruct_block_uncles(S):
-    """`Relayer::reconstruct_block` (async fn; its coroutine body is executed): compact block with every transaction prefilled (one prefilled transaction, no short ids -- the
-    transaction-matching half with its hash containers is outside this obligation) and ONE uncle hash.  For every block status of that uncle, whether it was requested from the peer,
-    whether the store / orphan pool still has it, extension present or not, and equal / different transaction roots: the result is `Block` only if the uncle was placed -- the
-    received one when requested, else the stored / orphan-pool block with that hash -- and the reconstructed transactions root equals the header's; an uncle that cannot be
-    placed is REPORTED as missing (index 0), never dropped; an invalid uncle is an error; the block is built from the compact block's header and proposals, the prefilled
-    transaction and exactly that uncle."""
+def _reconstruct(S, ob, tag, prefilled_at, n_short, n_received, n_uncles, requested, extension):
+    """one exploration of the coroutine body of `Relayer::reconstruct_block`: compact block with prefilled transactions at the given indexes, `n_short` short ids, `n_received`
+    transactions from the peer and `n_uncles` uncle hashes; short ids and the received transactions' ids are SYMBOLIC (hash containers modelled by mir2smt/symmap.py)"""
     from mir2smt.exec import CoroV, ListV
-    ob = "C16.m7"
+    from mir2smt import symmap as SM
     c = [f for f in S.prog.funcs if f.kind == "fn" and re.search(r"::reconstruct_block::\{closure#0\}$", f.name) and len(f.params) == 2 and "Context" in f.params[1][1]]
     if len(c) != 1:
         raise Inconclusive(f"reconstruct_block coroutine: {len(c)} candidates")
@@ -332,93 +328,190 @@ def m7_reconstruct_block_uncles(S):
     need = ["self", "active_chain", "compact_block", "received_transactions", "uncles_index", "received_uncles"]
     if any(n not in ix for n in need):
         raise Inconclusive(f"reconstruct_block upvars: {ix}")
-    # status constants from the source
+    ctx = S.ctx(unwind=12)
+    ctx.uninterpreted_unknown_calls = True
+    ctx.prune_with_solver = True
+    ctx.max_paths = 8000
+    has_ext = ctx.bool("compact_block_has_extension") if extension is None else BoolV(extension)
+    roots_differ = ctx.bool("reconstructed_tx_root_differs_from_header")
+    pool_err = ctx.bool("tx_pool_fetch_fails")
+    stored = ctx.bool("uncle_block_is_in_the_store"); pooled = ctx.bool("uncle_block_is_in_the_orphan_pool")
+    txs_len = len(prefilled_at) + n_short
+
+    def nmv(ex, v):
+        v = deref(ex, v) if ex is not None else v
+        if isinstance(v, ListV):
+            return "[" + ",".join(nmv(ex, x) for x in v.items) + "]"
+        return getattr(v, "name", None) or type(v).__name__
+    call = lambda t_: (lambda ex, c_, a, d: OpaqueV(t_ + "(" + ",".join(nmv(ex, x) for x in a) + ")", d))
+
+    def setter(ex, c_, a, d):
+        nm_ = re.sub(r"::<.*>$", "", c_)
+        ex.log.append(("set", c_, [nm_.split("::")[-1], nmv(ex, a[1])], list(ex.pc)))
+        return OpaqueV(nmv(ex, a[0]), d)
+
+    def fetch(ex, c_, a, d):
+        want = deref(ex, a[1])
+        if not isinstance(want, SM.MapV):
+            raise Stop("fetch_txs with an unknown id set")
+        ex.log.append(("fetch", c_, [tuple(kv.name for _, _, kv in want.items)], list(ex.pc)))
+        items = []
+        for k, _, kv in want.items:
+            if ex.decide(ex.ctx.bool("pool_has_" + kv.name).t):
+                items.append((k, ex.ctx.ref_to(OpaqueV(f"pooltx({kv.name})", "TransactionView")), kv))
+        return AggV((SM.MapV(tuple(items), "HashMap<ProposalShortId, TransactionView>"),), "fetch_future")
+
+    def poll(ex, c_, a, d):
+        fut = deref(ex, a[0])
+        inner = fut.fields[0] if isinstance(fut, AggV) and fut.ty == "fetch_future" else OpaqueV("polled", "?")
+        return EnumV(0, ((0, (mk_result(T.not_(pool_err.t), inner, OpaqueV("pool_error", "AnyError"), "Result<HashMap, AnyError>"),)),), d)
+
+    def passthru(ex, c_, a, d):
+        v = deref(ex, a[0])
+        if isinstance(v, OpaqueV):
+            return ex.ctx.ref_to(OpaqueV(v.name, "?")) if c_.endswith("deref") else OpaqueV(v.name, d)
+        return a[0] if c_.endswith("deref") else v
+    pin_id = lambda ex, c_, a, d: a[0]
+    ctx.env = list(E.LOGGING_OFF) + [
+        (E.rx(r"CompactBlock::calc_header_hash$"), call("hash")),
+        (E.rx(r"CompactBlock::short_ids$"), lambda ex, c_, a, d: ListV(tuple(OpaqueV(f"sid{k}", "ProposalShortId") for k in range(n_short)), "ProposalShortIdVec")),
+        (E.rx(r"CompactBlock::prefilled_transactions$"), lambda ex, c_, a, d: ListV(tuple(OpaqueV(f"prefilled{k}", "IndexTransaction") for k in range(len(prefilled_at))), "IndexTransactionVec")),
+        (E.rx(r"CompactBlock::uncles$"), lambda ex, c_, a, d: ListV(tuple(OpaqueV(f"uncle_hash{k}", "Byte32") for k in range(n_uncles)), "Byte32Vec")),
+        (E.rx(r"CompactBlock::(proposals|header)$"), lambda ex, c_, a, d: OpaqueV(c_.split("::")[-1] + "(cb)", d)),
+        (E.rx(r"CompactBlock>?::txs_len$"), lambda ex, c_, a, d: IntV(txs_len, "usize")),
+        (E.rx(r"::extension$"), lambda ex, c_, a, d: mk_option(has_ext.t, OpaqueV("ext(cb)", "Bytes"), d)),
+        (E.rx(r"<(ProposalShortIdVec|IndexTransactionVec|Byte32Vec) as IntoIterator>::into_iter$"), lambda ex, c_, a, d: AggV((deref(ex, a[0]), IntV(0, "usize")), "ListIter")),
+        (E.rx(r"(ProposalShortIdVec|Byte32Vec|IndexTransactionVec)::(is_empty|len)$"), lambda ex, c_, a, d: BoolV(len(deref(ex, a[0]).items) == 0) if c_.endswith("is_empty") else IntV(len(deref(ex, a[0]).items), "usize")),
+        (E.rx(r"TransactionView::proposal_short_id$"), lambda ex, c_, a, d: OpaqueV("id_of_" + nmv(ex, a[0]), d)),
+        (E.rx(r"TxPoolController::fetch_txs$"), fetch),
+        (E.rx(r" as Future>::poll$"), poll),
+        (E.rx(r" as IntoFuture>::into_future$|Pin::<.*>::new_unchecked$"), pin_id),
+        (E.rx(r"IndexTransaction::index$"), call("index")),
+        (E.rx(r"<Uint32 as Into<usize>>::into$"), lambda ex, c_, a, d: IntV(prefilled_at[int(re.search(r"prefilled(\d+)", nmv(ex, a[0])).group(1))], "usize")),
+        (E.rx(r"IndexTransaction::transaction$"), call("tx")),
+        (E.rx(r"IntoTransactionView>::into_view$|Transaction::into_view$"), call("view")),
+        (E.rx(r"TransactionView::data$|UncleBlockView::data$"), call("data")),
+        (E.rx(r"UncleBlockView as Clone>::clone$|<ProposalShortId as Clone>::clone$"), lambda ex, c_, a, d: deref(ex, a[0])),
+        (E.rx(r"ActiveChain::get_block_status$"), lambda ex, c_, a, d: OpaqueV("status", d)),
+        (E.rx(r"ActiveChain::get_block$"), lambda ex, c_, a, d: mk_option(stored.t, OpaqueV("stored_block(" + nmv(ex, a[1]) + ")", "BlockView"), d)),
+        (E.rx(r"ChainController::get_orphan_block$"), lambda ex, c_, a, d: mk_option(pooled.t, OpaqueV("orphan_block(" + nmv(ex, a[2]) + ")", "Arc<BlockView>"), d)),
+        (E.rx(r"BlockView::as_uncle$"), call("as_uncle")),
+        (E.rx(r"Relayer::shared$|SyncShared::(store|shared)$|Shared::tx_pool_controller$"), E.opaque_call()),
+        (E.rx(r"Block(V1)?Builder::(header|uncles|transactions|proposals|extension)(::<.*>)?$"), setter),
+        (E.rx(r"::new_builder$"), lambda ex, c_, a, d: OpaqueV("builder:" + d.split("::")[-1], d)),
+        (E.rx(r"Builder>?::build$|::as_v0$"), lambda ex, c_, a, d: OpaqueV(nmv(ex, a[0]), d)),
+        (E.rx(r"IntoBlockView>::into_view$|Block::into_view$"), lambda ex, c_, a, d: OpaqueV("rebuilt_block", d)),
+        (E.rx(r"RawHeader::transactions_root$|BlockView::transactions_root$|Header::raw$"), call("root")),
+        (E.rx(r"Byte32 as PartialEq>::(ne|eq)$"), lambda ex, c_, a, d: BoolV(roots_differ.t if c_.endswith("ne") else T.not_(roots_differ.t))),
+        (E.rx(r"StatusCode::with_context::<"), lambda ex, c_, a, d: OpaqueV("error_status", d)),
+        (E.rx(r"fmt::|format|must_use"), E.opaque_call()),
+        (E.rx(r"as Deref>::deref$"), passthru),
+    ] + SM.handlers(r"(ckb_types::packed::)?ProposalShortId") + SM.EXTRAS + list(E.LIST_ADAPTORS)
+    ups = {ix["self"]: ctx.ref_to(OpaqueV("relayer", "Relayer")), ix["active_chain"]: ctx.ref_to(OpaqueV("active_chain", "ActiveChain")),
+           ix["compact_block"]: ctx.ref_to(OpaqueV("cb", "CompactBlock")),
+           ix["received_transactions"]: ListV(tuple(OpaqueV(f"received{k}", "TransactionView") for k in range(n_received)), "Vec<TransactionView>"),
+           ix["uncles_index"]: ctx.ref_to(ListV(tuple(IntV(k, "u32") for k in range(n_uncles)) if requested else (), "[u32]")),
+           ix["received_uncles"]: ctx.ref_to(ListV(tuple(OpaqueV(f"received_uncle{k}", "UncleBlockView") for k in range(n_uncles)) if requested else (), "[UncleBlockView]"))}
+    coro = CoroV(0, tuple(sorted(ups.items())), (), "coroutine")
+    ps = S.run(ctx, f, [AggV((ctx.ref_to(coro),), "Pin"), ctx.ref_to(OpaqueV("task_context", "Context"))])
+    S.prove(ctx, ob, f"{tag}_no_panic", [], T.not_(cond_of(panics(ps))))
+    rs = returns(ps)
+    ready = [p for p in rs if isinstance(p.value, EnumV) and p.value.disc == 0]
+    S.prove(ctx, ob, f"{tag}_completes_without_suspending", [], bool(ready and len(ready) == len(rs)))
+
+    def kind(p):
+        v = p.value.payload(0)[0]
+        return v.disc if isinstance(v, EnumV) else None
+    S.prove(ctx, ob, f"{tag}_result_is_one_of_the_declared_outcomes", [], bool(all(kind(p) in (0, 1, 2, 3) for p in ready)))
+    return dict(ctx=ctx, ps=ps, ready=ready, kind=kind, roots_differ=roots_differ, pool_err=pool_err, stored=stored, pooled=pooled, has_ext=has_ext, nmv=nmv)
+
+
+def m7_reconstruct_block_transactions(S):
+    """`Relayer::reconstruct_block` (async fn; coroutine body executed), transaction half, for every coincidence of the ids: a compact block with prefilled transactions at indexes
+    0 and 2 and two short ids (slots 1 and 3), one transaction received from the peer, the rest asked from the pool (each present or not, the fetch may fail).  The result is `Block`
+    only if every slot is filled and the rebuilt transactions root equals the header's; slot k holds the prefilled transaction or the transaction whose id EQUALS that slot's short id
+    (the peer's transaction first, else the pool's), each transaction used at most once (a repeated short id leaves the second slot empty); otherwise `Missing` names exactly the empty
+    slots; a root mismatch is `Collided` (short ids were resolved locally) and never a block; a failing pool is an error."""
+    from mir2smt.exec import ListV
+    ob = "C16.m7"
+    R = _reconstruct(S, ob, "txs", prefilled_at=[0, 2], n_short=2, n_received=1, n_uncles=0, requested=False, extension=False)
+    ctx, ready, kind, nmv = R["ctx"], R["ready"], R["kind"], R["nmv"]
+    s0, s1, r0 = (ctx.int(f"id!{n}", "u64").t for n in ("sid0", "sid1", "id_of_received0"))
+    has0, has1 = ctx.bool("pool_has_sid0").t, ctx.bool("pool_has_sid1").t
+    dup = T.eq(s0, s1)
+    from_peer0, from_peer1 = T.eq(r0, s0), T.and_(T.eq(r0, s1), T.not_(dup))
+    asked0 = T.not_(from_peer0)                      # sid0 stays in the set unless the peer's transaction matched it
+    asked1 = T.and_(T.not_(dup), T.not_(T.eq(r0, s1)))
+    fetched = T.or_(asked0, asked1)
+    filled0 = T.or_(from_peer0, T.and_(asked0, has0))
+    filled1 = T.and_(T.not_(dup), T.or_(from_peer1, T.and_(asked1, has1)))
+    ok_pool = T.or_(T.not_(fetched), T.not_(R["pool_err"].t))
+    is_block = T.or_(*[p.cond() for p in ready if kind(p) == 0])
+    is_missing = T.or_(*[p.cond() for p in ready if kind(p) == 1])
+    is_collided = T.or_(*[p.cond() for p in ready if kind(p) == 2])
+    is_error = T.or_(*[p.cond() for p in ready if kind(p) == 3])
+    S.prove(ctx, ob, "txs_block_iff_pool_answered_every_slot_is_filled_and_the_roots_agree", [], T.iff(is_block, T.and_(ok_pool, filled0, filled1, T.not_(R["roots_differ"].t))))
+    S.prove(ctx, ob, "txs_missing_iff_pool_answered_and_some_slot_is_empty", [], T.iff(is_missing, T.and_(ok_pool, T.not_(T.and_(filled0, filled1)))))
+    S.prove(ctx, ob, "txs_root_mismatch_with_locally_resolved_short_ids_is_a_collision_never_a_block", [], T.iff(is_collided, T.and_(ok_pool, filled0, filled1, R["roots_differ"].t)))
+    S.prove(ctx, ob, "txs_failing_pool_is_an_error", [], T.iff(is_error, T.and_(fetched, R["pool_err"].t)))
+    bad_build, bad_missing, bad_fetch = [], [], []
+    for p in ready:
+        c = p.cond()
+        for e in p.log:
+            if e[0] == "fetch":
+                names = set(e[2][0])
+                bad_fetch.append(T.and_(c, T.not_(T.and_(T.iff(bool("sid0" in names), asked0), T.iff(bool("sid1" in names), asked1)))))
+        if kind(p) == 0:
+            d_ = {e[2][0]: e[2][1] for e in p.log if e[0] == "set"}
+            txs = d_.get("transactions", "")
+            m_ = re.fullmatch(r"\[data\(view\(tx\(prefilled0\)\)\),data\((.*?)\),data\(view\(tx\(prefilled1\)\)\),data\((.*?)\)\]", txs)
+            if not m_ or d_.get("header") != "header(cb)" or d_.get("proposals") != "proposals(cb)" or d_.get("uncles") != "[]":
+                bad_build.append(c)
+                continue
+            x1, x2 = m_.group(1), m_.group(2)
+            want1 = T.or_(T.and_(bool(x1 == "received0"), from_peer0), T.and_(bool(x1 == "pooltx(sid0)"), T.not_(from_peer0)))
+            want2 = T.or_(T.and_(bool(x2 == "received0"), from_peer1), T.and_(bool(x2 == "pooltx(sid1)"), T.not_(from_peer1)))
+            bad_build.append(T.and_(c, T.not_(T.and_(want1, want2))))
+        if kind(p) == 1:
+            v = p.value.payload(0)[0]
+            miss_tx, miss_un = v.payload(1)
+            idx = [getattr(x, "t", None) for x in miss_tx.items] if isinstance(miss_tx, ListV) else None
+            if idx is None or not isinstance(miss_un, ListV) or miss_un.items or not set(idx) <= {1, 3} or len(set(idx)) != len(idx):
+                bad_missing.append(c)
+                continue
+            bad_missing.append(T.and_(c, T.not_(T.and_(T.iff(bool(1 in idx), T.not_(filled0)), T.iff(bool(3 in idx), T.not_(filled1))))))
+    S.prove(ctx, ob, "txs_block_holds_the_prefilled_transactions_and_for_each_short_id_the_transaction_with_that_id_peer_first", [], T.not_(T.or_(*bad_build)) if bad_build else True)
+    S.prove(ctx, ob, "txs_missing_report_names_exactly_the_empty_slots", [], T.not_(T.or_(*bad_missing)) if bad_missing else True)
+    S.prove(ctx, ob, "txs_pool_is_asked_exactly_for_the_short_ids_the_peer_did_not_supply", [], T.not_(T.or_(*bad_fetch)) if bad_fetch else True)
+    S.witness(ctx, ob, "txs_reach_block_from_peer_and_pool", [], T.and_(is_block, from_peer0, asked1))
+    S.witness(ctx, ob, "txs_reach_repeated_short_id", [], T.and_(is_missing, dup))
+
+
+def m7_reconstruct_block_uncles(S):
+    """uncle half: one uncle hash, no short ids.  For every block status of that uncle, requested from the peer or not, store / orphan pool still holding it or not, extension present
+    or not, equal / different roots: `Block` only if the uncle was placed -- the received one when requested, else the stored / orphan-pool block with that hash -- and the roots
+    agree; an uncle that cannot be placed is REPORTED as missing (index 0), never dropped; an invalid uncle is an error; the block is built from the compact block's header and
+    proposals, the prefilled transaction and exactly that uncle"""
+    from mir2smt.exec import ListV
+    ob = "C16.m7"
     src = open(os.path.join(os.environ.get("VERIF_REPO", "/repo"), "shared/src/block_status.rs")).read()
     consts = {}
     for name, expr in re.findall(r"const (\w+)\s*=\s*([^;]+);", src):
         e = re.sub(r"Self::(\w+)\.bits\(\)", lambda m_: str(consts[m_.group(1)]), expr)
         consts[name] = eval(e, {"__builtins__": {}})
     for requested in (False, True):
-        ctx = S.ctx(unwind=8)
-        ctx.uninterpreted_unknown_calls = True
-        ctx.max_paths = 600
-        stored = ctx.bool("uncle_block_is_in_the_store"); pooled = ctx.bool("uncle_block_is_in_the_orphan_pool")
-        has_ext = ctx.bool("compact_block_has_extension"); roots_differ = ctx.bool("reconstructed_tx_root_differs_from_header")
-        sets = []
-
-        def nmv(ex, v):
-            v = deref(ex, v)
-            if isinstance(v, ListV):
-                return "[" + ",".join(nmv(ex, x) for x in v.items) + "]"
-            return getattr(v, "name", None) or type(v).__name__
-        call = lambda tag: (lambda ex, c_, a, d: OpaqueV(tag + "(" + ",".join(nmv(ex, x) for x in a) + ")", d))
-
-        def setter(ex, c_, a, d):
-            nm_ = re.sub(r"::<[^<>]*>$", "", c_)
-            sets.append((nm_.split("::")[-2], nm_.split("::")[-1], nmv(ex, a[1]), list(ex.pc)))
-            ex.log.append(("set", c_, [nm_.split("::")[-1], nmv(ex, a[1])], list(ex.pc)))
-            return OpaqueV(nmv(ex, a[0]), d)
-        from mir2smt.exec import ENV_PASS as _PASS
-        ctx.env = list(E.LOGGING_OFF) + [
-            (E.rx(r"CompactBlock::calc_header_hash$"), call("hash")),
-            (E.rx(r"CompactBlock::(short_ids|prefilled_transactions|uncles|proposals|header)$"), lambda ex, c_, a, d: OpaqueV(c_.split("::")[-1] + "(cb)", d)),
-            (E.rx(r"CompactBlock::txs_len$"), lambda ex, c_, a, d: IntV(1, "usize")),
-            (E.rx(r"::extension$"), lambda ex, c_, a, d: mk_option(has_ext.t, OpaqueV("ext(cb)", "Bytes"), d)),
-            (E.rx(r"ProposalShortIdVec as IntoIterator>::into_iter$"), lambda ex, c_, a, d: E.list_source([])(ex, c_, a, d)),
-            (E.rx(r"ProposalShortIdVec::(is_empty|len)$"), lambda ex, c_, a, d: BoolV(True) if c_.endswith("is_empty") else IntV(0, "usize")),
-            (E.rx(r"IndexTransactionVec as IntoIterator>::into_iter$"), lambda ex, c_, a, d: E.list_source([OpaqueV("prefilled0", "IndexTransaction")])(ex, c_, a, d)),
-            (E.rx(r"Byte32Vec as IntoIterator>::into_iter$"), lambda ex, c_, a, d: E.list_source([OpaqueV("uncle_hash0", "Byte32")])(ex, c_, a, d)),
-            (E.rx(r"Byte32Vec::len$"), lambda ex, c_, a, d: IntV(1, "usize")),
-            (E.rx(r"as Iterator>::collect::<.*Hash(Set|Map)<"), lambda ex, c_, a, d: ListV(tuple(E._rest(ex, deref(ex, a[0]))), "hashed") if E._is_it(deref(ex, a[0])) else _PASS),
-            (E.rx(r"HashSet::<.*ProposalShortId.*>::is_empty$"), lambda ex, c_, a, d: BoolV(len(deref(ex, a[0]).items) == 0)),
-            (E.rx(r"HashMap::<.*ProposalShortId, .*TransactionView.*>::remove"), lambda ex, c_, a, d: mk_option(False, None, d)),
-            (E.rx(r"IndexTransaction::index$"), call("index")),
-            (E.rx(r"<Uint32 as Into<usize>>::into$"), lambda ex, c_, a, d: IntV(0, "usize")),
-            (E.rx(r"IndexTransaction::transaction$"), call("tx")),
-            (E.rx(r"as IntoTransactionView>::into_view$|Transaction::into_view$"), call("view")),
-            (E.rx(r"TransactionView::data$"), call("data")),
-            (E.rx(r"UncleBlockView::data$"), call("data")),
-            (E.rx(r"UncleBlockView as Clone>::clone$"), lambda ex, c_, a, d: deref(ex, a[0])),
-            (E.rx(r"ActiveChain::get_block_status$"), lambda ex, c_, a, d: OpaqueV("status", d)),
-            (E.rx(r"ActiveChain::get_block$"), lambda ex, c_, a, d: mk_option(stored.t, OpaqueV("stored_block(" + nmv(ex, a[1]) + ")", "BlockView"), d)),
-            (E.rx(r"ChainController::get_orphan_block$"), lambda ex, c_, a, d: mk_option(pooled.t, OpaqueV("orphan_block(" + nmv(ex, a[2]) + ")", "Arc<BlockView>"), d)),
-            (E.rx(r"BlockView::as_uncle$"), call("as_uncle")),
-            (E.rx(r"as Deref>::deref$"), lambda ex, c_, a, d: ex.ctx.ref_to(OpaqueV(nmv(ex, a[0]), "?"))),
-            (E.rx(r"Relayer::shared$|SyncShared::(store|shared)$"), E.opaque_call()),
-            (E.rx(r"Block(V1)?Builder::(header|uncles|transactions|proposals|extension)(::<.*>)?$"), setter),
-            (E.rx(r"::new_builder$"), lambda ex, c_, a, d: OpaqueV("builder:" + d.split("::")[-1], d)),
-            (E.rx(r"Builder>?::build$|::as_v0$"), lambda ex, c_, a, d: OpaqueV(nmv(ex, a[0]), d)),
-            (E.rx(r"as IntoBlockView>::into_view$|Block::into_view$"), lambda ex, c_, a, d: OpaqueV("rebuilt_block", d)),
-            (E.rx(r"RawHeader::transactions_root$|BlockView::transactions_root$|Header::raw$"), call("root")),
-            (E.rx(r"Byte32 as PartialEq>::(ne|eq)$"), lambda ex, c_, a, d: BoolV(roots_differ.t if c_.endswith("ne") else T.not_(roots_differ.t))),
-            (E.rx(r"StatusCode::with_context::<"), lambda ex, c_, a, d: OpaqueV("error_status", d)),
-            (E.rx(r"fmt::|format"), E.opaque_call()),
-        ] + list(E.LIST_ADAPTORS)
-        ups = {ix["self"]: ctx.ref_to(OpaqueV("relayer", "Relayer")), ix["active_chain"]: ctx.ref_to(OpaqueV("active_chain", "ActiveChain")),
-               ix["compact_block"]: ctx.ref_to(OpaqueV("cb", "CompactBlock")), ix["received_transactions"]: ListV((), "Vec<TransactionView>"),
-               ix["uncles_index"]: ctx.ref_to(ListV((IntV(0, "u32"),) if requested else (), "[u32]")),
-               ix["received_uncles"]: ctx.ref_to(ListV((OpaqueV("received_uncle0", "UncleBlockView"),) if requested else (), "[UncleBlockView]"))}
-        coro = CoroV(0, tuple(sorted(ups.items())), (), "coroutine")
-        ps = S.run(ctx, f, [AggV((ctx.ref_to(coro),), "Pin"), ctx.ref_to(OpaqueV("task_context", "Context"))])
         tag = "uncle_requested_from_the_peer" if requested else "uncle_not_requested"
-        S.prove(ctx, ob, f"{tag}_no_panic", [], T.not_(cond_of(panics(ps))))
-        rs = returns(ps)
-        ready = [p for p in rs if isinstance(p.value, EnumV) and p.value.disc == 0]
-        S.prove(ctx, ob, f"{tag}_completes_without_suspending", [], bool(ready and len(ready) == len(rs)))
-        rv = struct_variants = ["Block", "Missing", "Collided", "Error"]
-        st = T.var([n for n in ctx.decls if re.fullmatch(r"status(\.\d+)+", n)][0]) if [n for n in ctx.decls if re.fullmatch(r"status(\.\d+)+", n)] else None
-        if st is None and not requested:
+        R = _reconstruct(S, ob, tag, prefilled_at=[0], n_short=0, n_received=0, n_uncles=1, requested=requested, extension=None)
+        ctx, ready, kind, nmv, stored, pooled, roots_differ = R["ctx"], R["ready"], R["kind"], R["nmv"], R["stored"], R["pooled"], R["roots_differ"]
+        st = [n for n in ctx.decls if re.fullmatch(r"status(\.\d+)+", n)]
+        if not st and not requested:
             raise Inconclusive("the uncle's block status is never inspected")
-        def kind(p):
-            v = p.value.payload(0)[0]
-            return v.disc if isinstance(v, EnumV) else None
+        st = T.var(st[0]) if st else None
         is_block = T.or_(*[p.cond() for p in ready if kind(p) == 0])
         is_missing = T.or_(*[p.cond() for p in ready if kind(p) == 1])
         is_error = T.or_(*[p.cond() for p in ready if kind(p) == 3])
-        S.prove(ctx, ob, f"{tag}_result_is_one_of_the_declared_outcomes", [], bool(all(kind(p) in (0, 1, 2, 3) for p in ready)))
         if requested:
-            placeable = True
-            want_uncle = lambda pc: "[data(received_uncle0)]"
+            placeable, invalid = True, False
         else:
             is_stored = T.or_(T.eq(st, consts["BLOCK_STORED"]), T.eq(st, consts["BLOCK_VALID"]))
             is_recv = T.eq(st, consts["BLOCK_RECEIVED"])
@@ -427,14 +520,18 @@ def m7_reconstruct_block_uncles(S):
             S.prove(ctx, ob, f"{tag}_invalid_uncle_is_an_error", [invalid], T.and_(is_error, T.not_(is_block)))
             S.prove(ctx, ob, f"{tag}_an_uncle_that_cannot_be_placed_is_reported_missing_never_dropped", [T.not_(placeable), T.not_(invalid)], T.and_(is_missing, T.not_(is_block)))
         S.prove(ctx, ob, f"{tag}_block_only_if_the_uncle_is_placed_and_the_roots_agree", [], T.implies(is_block, T.and_(placeable, T.not_(roots_differ.t))))
-        S.prove(ctx, ob, f"{tag}_block_whenever_the_uncle_is_placed_and_the_roots_agree", [placeable if placeable is not True else True, T.not_(roots_differ.t)], is_block)
-        # what the block is built from, and the missing report
+        S.prove(ctx, ob, f"{tag}_block_whenever_the_uncle_is_placed_and_the_roots_agree", [placeable, T.not_(roots_differ.t)] + ([T.not_(invalid)] if invalid is not False else []), is_block)
         bad_build, bad_missing = [], []
         for p in ready:
             if kind(p) == 0:
                 d_ = {e[2][0]: e[2][1] for e in p.log if e[0] == "set"}
                 ok_u = d_.get("uncles") in (("[data(received_uncle0)]",) if requested else ("[data(as_uncle(stored_block(uncle_hash0)))]", "[data(as_uncle(orphan_block(uncle_hash0)))]"))
+                if not requested and ok_u:
+                    # the stored block only for a stored status, the orphan-pool block only for a received one
+                    src_ok = T.and_(is_stored, stored.t) if "stored_block" in d_.get("uncles") else T.and_(is_recv, pooled.t)
+                    bad_build.append(T.and_(p.cond(), T.not_(src_ok)))
                 ok = ok_u and d_.get("header") == "header(cb)" and d_.get("proposals") == "proposals(cb)" and d_.get("transactions") == "[data(view(tx(prefilled0)))]"
+                ok = ok and (("extension" in d_) == (d_.get("extension") == "ext(cb)"))
                 if not ok:
                     bad_build.append(p.cond())
             if kind(p) == 1:
@@ -447,8 +544,7 @@ def m7_reconstruct_block_uncles(S):
         S.witness(ctx, ob, f"{tag}_reach_block", [], is_block)
 
 
-OBLIGATIONS = [m1_extension_accessors, m2_frame_guard, m3_molecule_accessors, m4_discovery_decode_uses_verified_readers, m5_prefilled_indexes, m6_block_transactions_reply_guards]
-# m7_reconstruct_block_uncles is an unfinished draft (its transaction-slot model is incomplete: it raises alarms on the unchanged tree) and is NOT registered.
+OBLIGATIONS = [m1_extension_accessors, m2_frame_guard, m3_molecule_accessors, m4_discovery_decode_uses_verified_readers, m5_prefilled_indexes, m6_block_transactions_reply_guards, m7_reconstruct_block_transactions, m7_reconstruct_block_uncles]
 
 _P = os.path.join(os.path.dirname(__file__), "..", "kani", "molecule", "gen_molecule.json")
 _OKFILE = os.path.join(os.path.dirname(__file__), "..", "kani", "molecule", "feasible.json")
